@@ -59,7 +59,7 @@ CHECKS = {
          'Every block accepted by the real ValidateBlock on generated chains (all eras, v1/mixed/v2, all transaction kinds, reorgs) is applied and the ledger identity unspent + locked(v1,v2) + unclaimed pool + forfeited = genesis + scheduled subsidy, the siafund count, each claim value (pool replayed inside the block), tax revenue and miner payouts are checked after every block and every revert; the client store totals are cross-checked. Held on the observed histories only.',
          'Trusted: math/big; schedules re-implemented from the protocol definition; genesis taken as allocation; legacy ephemeral-siafund window excluded as the quantifier says.', '§5 C01'),
  'C06': ('runtime monitor over generated histories: store snapshot comparison, diff-stream reversal checker, independent membership test, byte-for-byte re-apply comparison',
-         'On generated chains with reorg schedules (revert k and continue, revert k and re-apply the same blocks, competing branch and back) the client store after every revert is compared element-for-element (fields, leaf index, proof) with the snapshot taken before the apply, RevertUpdate diffs are compared with the reversed ApplyUpdate diffs, every stored element is verified against the parent accumulator, and re-applied blocks must reproduce State encoding and ApplyUpdate JSON exactly.',
+         'On generated chains with reorg schedules (revert k and continue, revert k and re-apply the same blocks, competing branch and back) the client store after every revert is compared element-for-element (fields, leaf index, proof) with the snapshot taken before the apply, RevertUpdate diffs are compared with the reversed ApplyUpdate diffs, every stored element is verified against the parent accumulator, and re-applied blocks must reproduce State encoding and ApplyUpdate JSON exactly; a consumer\'s own copies of elements updated in place are kept current and walked back with RevertUpdate.UpdateElementProof and must then prove the pre-block element.',
          'Trusted: the store model applies updates in the reported order; x/crypto blake2b; element hashes via the public types.Hasher.', '§5 C06'),
  'C05': ('runtime monitor over generated histories: naive Merkle-forest reference model fed from the diff stream + client-store proof checker after every apply/revert; exhaustive small-shape enumerator',
          'Real blocks are validated/applied/reverted on generated chains (5 network families, random reorg schedules up to whole-chain depth) and on a signature-free enumerator network (every leaf count up to a bound, every subset of spent leaves x added-leaf counts for small accumulators - exhaustive for that sub-space); after each step the accumulator roots, leaf count, ForEachTreeNode output and every proof the client store maintains via UpdateElementProof (live elements of all kinds, chain indices, proofs of spent outputs) are compared with a forest rebuilt naively from all leaves. Held on the observed executions only.',
